@@ -61,3 +61,17 @@ def cyclic_fractional_multiplicity_bound(violation, spec):
 def cyclic_error_model_with_ignored_elements(violation, spec):
     w = spec.get("world", {})
     return w.get("class") in ("kMinPathErrorCycles", "kLeastAbsErrorsCycles") and bool(w.get("args", {}).get("elements_to_ignore"))
+
+
+@predicate
+def cyclic_flow_decomp_guessed_weights_finds_fewer_walks(violation, spec):
+    w = spec.get("world", {})
+    if w.get("class") not in ("MinFlowDecompCycles",):
+        return False
+    if not spec.get("flags", {}).get("optimize_with_guessed_weights"):
+        return False
+    d = violation.get("detail") or {}
+    try:
+        return float(d.get("objective")) < float(d.get("reference"))
+    except Exception:
+        return False
